@@ -123,6 +123,10 @@ func (c nullFloatCodec) Omit(ptr unsafe.Pointer) bool {
 }
 
 func (c nullFloatCodec) Size(ptr unsafe.Pointer, tag []byte) (size int) {
+	if ptr == nil {
+		// Slice wrappers ask for the fixed element size this way.
+		return c.Float64Codec.Size(nil, tag)
+	}
 	nf := (*null.Float)(ptr)
 	return c.Float64Codec.Size(unsafe.Pointer(&nf.Float64), tag)
 }
